@@ -74,6 +74,39 @@ impl<A: Copy, const N: usize> Pad<A, N> {
 
 include!("../inc/qshapes.rs");
 
+// Zero-sized captures: closures that are themselves zero-sized (with and
+// without alignment) but still have to be dropped exactly once
+thread_local! {
+    static ZLOG: RefCell<Option<Log>> = const { RefCell::new(None) };
+}
+fn zlog(s: String) {
+    ZLOG.with(|z| {
+        if let Some(l) = z.borrow().as_ref() {
+            l.borrow_mut().push(s);
+        }
+    });
+}
+struct Z1;
+impl Drop for Z1 {
+    fn drop(&mut self) {
+        zlog(r#"{"e":"qdrop","id":-1}"#.to_string());
+    }
+}
+#[repr(align(16))]
+struct Z16;
+impl Drop for Z16 {
+    fn drop(&mut self) {
+        zlog(r#"{"e":"qdrop","id":-16}"#.to_string());
+    }
+}
+#[repr(align(128))]
+struct Z128;
+impl Drop for Z128 {
+    fn drop(&mut self) {
+        zlog(r#"{"e":"qdrop","id":-128}"#.to_string());
+    }
+}
+
 // dropped-exactly-once token
 struct Tok {
     id: i64,
@@ -146,6 +179,34 @@ macro_rules! runner {
                                     ));
                                     q.push(f);
                                 });
+                                log.borrow_mut().push(storage(q));
+                            }
+                        }
+                        "pushz" => {
+                            // zero-sized closure; kind: 1, 16 or 128 (alignment)
+                            let kind = op[1].as_i64().unwrap();
+                            if let Some(q) = q.as_mut() {
+                                macro_rules! pz {
+                                    ($z:expr, $id:expr) => {{
+                                        let z = $z;
+                                        let f = move |c: &mut Ctx| {
+                                            let _z = &z;
+                                            c.log.borrow_mut().push(format!(r#"{{"e":"qrun","id":{},"ok":true}}"#, $id));
+                                        };
+                                        log.borrow_mut().push(format!(
+                                            r#"{{"e":"qpush","id":{},"shape":-1,"size":{},"align":{}}}"#,
+                                            $id,
+                                            std::mem::size_of_val(&f),
+                                            std::mem::align_of_val(&f)
+                                        ));
+                                        q.push(f);
+                                    }};
+                                }
+                                match kind {
+                                    16 => pz!(Z16, -16),
+                                    128 => pz!(Z128, -128),
+                                    _ => pz!(Z1, -1),
+                                }
                                 log.borrow_mut().push(storage(q));
                             }
                         }
@@ -244,6 +305,7 @@ fn main() {
         println!(r#"{{"e":"qcase","name":{},"idx":{}}}"#, case["case"], idx);
         for which in ["flat", "boxed"] {
             let log: Log = Rc::new(RefCell::new(Vec::new()));
+            ZLOG.with(|z| *z.borrow_mut() = Some(log.clone()));
             println!(r#"{{"e":"qimpl","which":"{}"}}"#, which);
             // flush eagerly: a crash inside the unsafe queue must not lose the prefix
             if which == "flat" {
@@ -251,6 +313,7 @@ fn main() {
             } else {
                 run_boxed::run(&case, &log);
             }
+            ZLOG.with(|z| *z.borrow_mut() = None);
             for l in log.borrow().iter() {
                 if !l.is_empty() {
                     println!("{}", l);
